@@ -230,3 +230,41 @@ bool alloc_wide_ok(draco::DecoderBuffer *b, std::vector<int> *v) {
   return true;
 }
 }  // namespace verif_control
+
+// ---- G1JUSTIFY control: a count guard that assumes 4 bytes per item in
+// front of a loop whose items take 2 bytes ---------------------------------
+namespace verif_control {
+bool g1_unjustified_bad(draco::DecoderBuffer *b, uint32_t *sum) {
+  uint32_t n;
+  if (!draco::DecodeVarint(&n, b)) return false;
+  if (n > b->remaining_size() / 4) return false;
+  for (uint32_t i = 0; i < n; ++i) {
+    uint16_t v;
+    if (!b->Decode(&v)) return false;
+    *sum += v;
+  }
+  return true;
+}
+}  // namespace verif_control
+
+// ---- WRITELEN (C02) --------------------------------------------------------
+namespace verif_control {
+bool writelen_bad(draco::DecoderBuffer *b, int32_t *slots, size_t num_values) {
+  uint8_t num_bytes;
+  if (!b->Decode(&num_bytes)) return false;
+  if (b->remaining_size() < static_cast<int64_t>(num_bytes) * static_cast<int64_t>(num_values)) return false;
+  for (size_t i = 0; i < num_values; ++i) {
+    if (!b->Decode(slots + i, num_bytes)) return false;  // up to 255 bytes into a 4-byte slot
+  }
+  return true;
+}
+bool writelen_ok(draco::DecoderBuffer *b, int32_t *slots, size_t num_values) {
+  uint8_t num_bytes;
+  if (!b->Decode(&num_bytes)) return false;
+  if (num_bytes > sizeof(int32_t)) return false;
+  for (size_t i = 0; i < num_values; ++i) {
+    if (!b->Decode(slots + i, num_bytes)) return false;
+  }
+  return true;
+}
+}  // namespace verif_control
